@@ -178,8 +178,20 @@ pub fn match_bed_and_breakfast(
         return Ok(results);
     }
 
-    // Track cumulative ratio effect from splits/unsplits between sell and potential buys
+    // Track cumulative ratio effect from splits/unsplits between sell and potential buys.
+    // As in the main pass, a day's SPLIT/UNSPLIT lines take effect after that day's
+    // trades, wherever they stand among the day's lines: those of the disposal day lie
+    // between the sale and every later purchase, those of a purchase day do not apply
+    // to that day's purchase.
     let mut cumulative_ratio_effect = Decimal::ONE;
+    for tx in all_transactions
+        .iter()
+        .filter(|tx| tx.date == sell_tx.date && tx.ticker == sell_tx.ticker)
+    {
+        apply_split_ratio_effect(&mut cumulative_ratio_effect, tx);
+    }
+    let mut pending_ratio_effect = Decimal::ONE;
+    let mut pending_date = sell_tx.date;
 
     // Find transactions after sell date, within B&B window, for same ticker
     for (idx, tx) in all_transactions.iter().enumerate().skip(sell_idx + 1) {
@@ -204,9 +216,15 @@ pub fn match_bed_and_breakfast(
             break;
         }
 
+        if tx.date != pending_date {
+            cumulative_ratio_effect *= pending_ratio_effect;
+            pending_ratio_effect = Decimal::ONE;
+            pending_date = tx.date;
+        }
+
         match &tx.operation {
             Operation::Split { .. } | Operation::Unsplit { .. } => {
-                apply_split_ratio_effect(&mut cumulative_ratio_effect, tx);
+                apply_split_ratio_effect(&mut pending_ratio_effect, tx);
             }
             Operation::Buy {
                 amount,
